@@ -175,3 +175,52 @@ Proof.
   - intros p Hp Hall. pose proof (rank_bound state enc enc_inj sys_steps cancel_busy cancel_rank V H1 cancel_rank_ok p s Hm Hb Hp Hall) as Hlen.
     pose proof (cancel_rank_le s). eapply Nat.le_trans; eassumption.
 Qed.
+
+(** ** death of the controller (C16): the socket is gone and the container has noticed; its own
+    steps alone bring the init to its exit within a bounded number of steps, from every reachable
+    state (the init never waits on anything that is not guarded by [done]) *)
+Definition eof_busy (s : state) : bool := s_cdone s && negb (Nat.eqb (cst_num (s_cont s)) 7).
+
+Definition eof_tab_step (T : PositiveMap.t nat) : PositiveMap.t nat :=
+  fold_left (fun acc kv =>
+    let s := snd kv in
+    if eof_busy s then
+      PositiveMap.add (enc s)
+        (S (fold_left (fun m s' => if eof_busy s' then Nat.max m (match PositiveMap.find (enc s') T with Some r => r | None => 0 end) else m)
+                      (cont_steps true s) 0)) acc
+    else acc) (PositiveMap.elements V) T.
+
+Fixpoint eof_tab_iter (n : nat) (T : PositiveMap.t nat) : PositiveMap.t nat :=
+  match n with O => T | S m => eof_tab_iter m (eof_tab_step T) end.
+
+Definition eof_rank_tab := Eval vm_compute in eof_tab_iter 12 (PositiveMap.empty nat).
+Definition eof_rank (s : state) : nat := match PositiveMap.find (enc s) eof_rank_tab with Some r => r | None => 0 end.
+
+Lemma eof_rank_ok : rank_ok state enc (cont_steps true) eof_busy eof_rank V = true.
+Proof. vm_compute. reflexivity. Qed.
+
+Definition eof_bound := Eval vm_compute in PositiveMap.fold (fun _ r m => Nat.max r m) eof_rank_tab 0.
+
+Lemma eof_rank_le s : eof_rank s <= eof_bound.
+Proof.
+  unfold eof_rank. destruct (PositiveMap.find (enc s) eof_rank_tab) as [r|] eqn:E; [|apply Nat.le_0_l].
+  assert (forallb (fun kv => Nat.leb (snd kv) eof_bound) (PositiveMap.elements eof_rank_tab) = true) as H by (vm_compute; reflexivity).
+  rewrite forallb_forall in H. apply PositiveMap.find_2, PositiveMap.elements_1, SetoidList.InA_alt in E.
+  destruct E as [[k v] [[Hk Hv] Hin]]. cbv [PositiveMap.eq_key_elt PositiveMap.E.eq fst snd] in Hk, Hv; simpl in Hk, Hv. subst.
+  specialize (H _ Hin). simpl in H. apply Nat.leb_le in H. exact H.
+Qed.
+
+Theorem socket_eof_ends_init s : R s -> s_cdone s = true -> s_cont s <> CDead ->
+  cont_steps true s <> [] /\
+  forall p, busy_path state (cont_steps true) eof_busy s p -> Forall (fun t => eof_busy t = true) p -> length p <= eof_bound.
+Proof.
+  intros Hr Hd Hc.
+  pose proof V_ok as H. apply andb_true_iff in H. destruct H as [H _]. apply andb_true_iff in H. destruct H as [H1 H2].
+  pose proof (reach_in state enc enc_inj init (next true) V H1 H2 s Hr) as Hm.
+  assert (eof_busy s = true) as Hb.
+  { unfold eof_busy. rewrite Hd. simpl. destruct (s_cont s) as [|[] []| | |]; try reflexivity. contradiction. }
+  split.
+  - exact (busy_has_step state enc enc_inj (cont_steps true) eof_busy eof_rank V H1 eof_rank_ok s Hm Hb).
+  - intros p Hp Hall. pose proof (rank_bound state enc enc_inj (cont_steps true) eof_busy eof_rank V H1 eof_rank_ok p s Hm Hb Hp Hall) as Hlen.
+    pose proof (eof_rank_le s). eapply Nat.le_trans; eassumption.
+Qed.
